@@ -4,6 +4,7 @@ import numpy as np
 from props import _discrete as D
 
 ENV_BY_TIER = {"quick": {"NUMBA_DISABLE_JIT": "1"}, "thorough": {}}
+ENV = {"XDG_CACHE_HOME": "/verif/.work/disc/cache"}
 COQ_REQ = ("lib.Num", "model.Discrete", "model.DiscreteFloat")
 TOL = 1e-9   # posterior entries (absolute) and likelihood (relative); measured <= 3e-15, see evidence notes
 
@@ -31,8 +32,12 @@ def gen_cases(ctx, reps, n_sim):
             d = D.canon(D.add_mutations(d, [rng.choice([0, 0, 1, 1, 2, 3]) for _ in d["edges"]], rng))
             if rng.random() < 0.5:
                 d, _ = D.renumber(d, rng)
-            cases.append(D.make_case(rng, d, kind="shape", cache_inside=rng.random() < 0.5,
-                                     out_std=rng.random() < 0.5))
+            unary = False
+            if sum(1 for f in d["nodes_flags"] if not f) <= 3 and rng.random() < 0.3:
+                d = D.add_unary(d, rng, k=rng.randint(1, 2))      # nodes with a single child
+                unary = True
+            cases.append(D.make_case(rng, d, kind="shape" + ("+unary" if unary else ""),
+                                     **D.random_options(rng, ctx.tier == "thorough")))
     for _ in range(n_sim):
         d = D.sim_dict(rng, n=rng.randint(2, 6), trees="single")
         if not D.is_single_tree(d):
@@ -40,7 +45,7 @@ def gen_cases(ctx, reps, n_sim):
         if rng.random() < 0.5:
             d, _ = D.renumber(d, rng)
         cases.append(D.make_case(rng, d, kind="msprime", grid=D.random_grid(rng, gmax=5),
-                                 cache_inside=rng.random() < 0.5, out_std=rng.random() < 0.5))
+                                 **D.random_options(rng, ctx.tier == "thorough")))
     return cases
 
 
@@ -49,8 +54,10 @@ def api_run(case):
     ts = D.ts_from_dict(case["ts"])
     pr = D.make_priors(case, ts)
     _new, fit, lik = tsdate.inside_outside(
-        ts, mutation_rate=case["mu"], priors=pr, eps=case["eps"], probability_space=case["space"],
-        outside_standardize=bool(case.get("out_std", True)), cache_inside=bool(case.get("cache_inside")),
+        ts, mutation_rate=D.opt(case, "mu", case["mu"]), priors=pr, eps=D.opt(case, "eps", case["eps"]),
+        probability_space=case["space"], num_threads=case.get("num_threads"),
+        outside_standardize=D.opt(case, "out_std", bool(case.get("out_std", True))),
+        cache_inside=D.opt(case, "cache", bool(case.get("cache_inside"))),
         return_fit=True, return_likelihood=True, record_provenance=False)
     post = fit.node_posteriors()
     post = [[float(row[k]) for k in post.dtype.names] for row in post]
